@@ -1,6 +1,7 @@
 (* Lemmas about Model.Watcher (C19). *)
 From Coq Require Import Lia String.
-From CR Require Import Model.Watcher Proofs.WatcherSpec.
+From CR Require Import Model.Watcher.
+From CR Require Import Proofs.WatcherSpec.
 From Coq Require Import List.
 Import ListNotations.
 Local Open Scope nat_scope.
